@@ -487,7 +487,7 @@ Definition step (r : req) (w : world) : list req * world :=
   (* ---- sources (observables/*.rs and the harness's scripted cold source) ---- *)
   | Src s att o script idx =>
       let alive := is_sub (obs w o) in
-      let w1 := w_probes (probes w ++ [(s, att, idx, alive)]) w in
+      let w1 := w_probes (probes w ++ [(s, att, idx, alive, length (log w), cur w)]) w in
       match script with
       | [] => ([], w1)
       | e :: rest => if snd (scripts w s) && negb alive then ([], w1)
